@@ -1,4 +1,5 @@
 import SpdxVerif.Props.C07
+import SpdxVerif.Props.C07List
 #print axioms Spdx.C07.verdict_congr
 #print axioms Spdx.C07.verdict_perm
 #print axioms Spdx.C07.verdict_set
@@ -6,3 +7,14 @@ import SpdxVerif.Props.C07
 #print axioms Spdx.C07.verdict_mono
 #print axioms Spdx.C07.sortAndDedupArray_subset
 #print axioms Spdx.C07.verdict_sortAndDedup_le
+#print axioms Spdx.C07.satisfies_eq
+#print axioms Spdx.C07.satisfies_denotes
+#print axioms Spdx.C07.satisfies_same_entries
+#print axioms Spdx.C07.satisfies_perm
+#print axioms Spdx.C07.satisfies_repeat
+#print axioms Spdx.C07.satisfies_respell
+#print axioms Spdx.C07.leafOf_parens
+#print axioms Spdx.C07.leafOf_spaces
+#print axioms Spdx.C07.satisfies_mono
+#print axioms Spdx.sortAndDedupArray_mem
+#print axioms Spdx.render_inj
